@@ -108,6 +108,20 @@ Definition swap_xy (c : list pt) : list pt := map (fun p => (snd p, fst p)) c.
 Definition translate (tx ty : Z) (c : list pt) : list pt :=
   map (fun p => (fst p + tx, snd p + ty)) c.
 
+(* invariants of the second-moment matrix (mu20 = N20/(36|a00|),
+   mu11 = N11/(72|a00|)): trace and discriminant.  The principal inertia
+   ratio squared is (T + sqrt D)/(T - sqrt D). *)
+Definition T_N (c : list pt) : Z := N20 c + N02 c.
+Definition Disc_N (c : list pt) : Z :=
+  (N20 c - N02 c) * (N20 c - N02 c) + N11 c * N11 c.
+
+(* rotation by the angle of (p, q) combined with the scaling sqrt(p^2+q^2):
+   for integer p, q the angles atan2(q, p) are dense *)
+Definition simmap (p q : Z) (c : list pt) : list pt :=
+  map (fun v => (p * fst v - q * snd v, q * fst v + p * snd v)) c.
+Definition reflect_x (c : list pt) : list pt :=
+  map (fun v => (- fst v, snd v)) c.
+
 Open Scope Q_scope.
 
 Definition dbl_epsilon : Q := 1 # 4503599627370496.   (* 2^-52 *)
@@ -216,6 +230,15 @@ Definition centre (k cx cy : Z) (c : list pt) : list pt :=
   map (fun p => (k * fst p - cx, k * snd p - cy)) c.
 Definition get_volume (k cx cy : Z) (c : list pt) : option Z :=
   get_volume_c (centre k cx cy c).
+
+(* get_volume(cont, pos_x, pos_y, pix) / pi with pos = (cx, cy)/k * pix:
+   v_avg = (vol_right + vol_left) / 2, each pi/3 * sum * pix^3 *)
+Definition get_volume_pi (k cx cy : Z) (c : list pt) (pix : Q) : option Q :=
+  match get_volume k cx cy c with
+  | Some v => Some ((inject_Z v / inject_Z (6 * (k * k * k)))
+                    * (pix * pix * pix))%Q
+  | None => None
+  end.
 
 (* ======================================================================
    external/skimage/_find_contours_cy.pyx : iterate_and_store on a binary
@@ -539,6 +562,49 @@ Definition get_bright_perc (mask : list bool) (img bg : list Z)
             end)
   end.
 
+(* several events; bg_off as the caller passes it:
+   None, a scalar, or a sequence (numpy broadcasting of `avg -= bg_off`:
+   one element per event, or a single element for all) *)
+Inductive offspec :=
+| OffNone
+| OffScalar (o : Q)
+| OffSeq (l : list Q).
+
+Record bevent := { bmask : list bool; bimg : list Z; bbg : list Z }.
+
+Inductive batch_result :=
+| BrOk (l : list (option (Q * Q)))
+| BrBroadcastError.       (* ValueError: operands could not be broadcast *)
+
+Definition off_at (off : offspec) (n i : nat) : option (option Q) :=
+  match off with
+  | OffNone => Some None
+  | OffScalar o => Some (Some o)
+  | OffSeq l =>
+      if (length l =? n)%nat then Some (Some (nth i l 0))
+      else if (length l =? 1)%nat then Some (Some (nth 0 l 0))
+      else None
+  end.
+
+Definition batch (f : list bool -> list Z -> list Z -> option Q
+                      -> option (Q * Q))
+           (evs : list bevent) (off : offspec) : batch_result :=
+  let n := length evs in
+  match off_at off n 0 with
+  | None => BrBroadcastError
+  | Some _ =>
+      BrOk (map (fun ie =>
+                   match off_at off n (fst ie) with
+                   | Some o => f (bmask (snd ie)) (bimg (snd ie))
+                                 (bbg (snd ie)) o
+                   | None => None
+                   end)
+                (combine (seq 0 n) evs))
+  end.
+
+Definition get_bright_bc_batch := batch get_bright_bc.
+Definition get_bright_perc_batch := batch get_bright_perc.
+
 (* ======================================================================
    features/fl_crosstalk.py
    ====================================================================== *)
@@ -651,8 +717,14 @@ Definition run_moments (c : list pt) : list Z :=
       1 :: flat_map encq [m00 m; m10 m; m01 m; m20 m; m11 m; m02 m; m30 m;
                           m21 m; m12 m; m03 m; mu20 m; mu11 m; mu02 m;
                           mu30 m; mu21 m; mu12 m; mu03 m]
-           ++ [N20 c; N02 c; N11 c; a00 c]
+           ++ [N20 c; N02 c; N11 c; a00 c; T_N c; Disc_N c]
   end.
+
+(* (p, q, contour): invariants of the rotated-and-scaled contour *)
+Definition run_simmap (x : Z * Z * list pt) : list Z :=
+  let '(p, q, c) := x in
+  let c' := simmap p q c in
+  [a00 c'; T_N c'; Disc_N c'; a00 c; T_N c; Disc_N c].
 
 (* (r, z, point_scale) *)
 Definition run_vol_revolve (x : list Z * list Z * Z) : list Z :=
@@ -663,6 +735,15 @@ Definition run_vol_revolve (x : list Z * list Z * Z) : list Z :=
 Definition run_get_volume (x : Z * Z * Z * list pt) : list Z :=
   let '(k, cx, cy, c) := x in
   match get_volume k cx cy c with Some v => [1; v] | None => [0] end.
+
+(* (k, cx, cy, contour, pix numerator, pix denominator) -> coefficient of pi *)
+Definition run_get_volume_pi (x : Z * Z * Z * list pt * Z * positive)
+  : list Z :=
+  let '(k, cx, cy, c, pn, pd) := x in
+  match get_volume_pi k cx cy c (Qmake pn pd) with
+  | Some v => 1 :: encq v
+  | None => [0]
+  end.
 
 Definition enc_segs (l : list (pt * pt)) : list Z :=
   flat_map (fun s => [fst (fst s); snd (fst s); fst (snd s); snd (snd s)]) l.
@@ -732,3 +813,33 @@ Definition run_crosstalk (x : list Z * list Z * Z) : list Z :=
     | CtNegative => [2]
     | CtSingular => [3]
     end.
+
+(* np.percentile(l, q) for any integer q in 0..100 *)
+Definition run_percentile (x : Z * list Z) : list Z :=
+  encq (percentile (fst x) (snd x)).
+
+(* (kind 1|2, events (mask, image, background), offset kind 0 none /
+   1 scalar / 2 sequence, offsets * 8) *)
+Definition run_bright_batch
+  (x : Z * list (list bool * list Z * list Z) * Z * list Z) : list Z :=
+  let '(kind, evs, ok, o8) := x in
+  let evs' := map (fun e => let '(m, i, b) := e in
+                            {| bmask := m; bimg := i; bbg := b |}) evs in
+  let off := if ok =? 0 then OffNone
+             else if ok =? 1 then OffScalar (dq (nth 0 o8 0))
+             else OffSeq (map dq o8) in
+  match (if kind =? 1 then get_bright_bc_batch evs' off
+         else get_bright_perc_batch evs' off) with
+  | BrBroadcastError => [9]
+  | BrOk l => 1 :: flat_map enc_pair l
+  end.
+
+(* true signals * 8 and spill coefficients * 64 -> what is measured *)
+Definition run_spill (x : list Z * list Z) : list Z :=
+  let '(cts, ts) := x in
+  let c i := Qmake (nth i cts 0) 64 in
+  let t i := dq (nth i ts 0) in
+  let m := crosstalk_matrix (c 0%nat) (c 1%nat) (c 2%nat) (c 3%nat)
+                            (c 4%nat) (c 5%nat) in
+  let '(f1, f2, f3) := spill m (t 0%nat) (t 1%nat) (t 2%nat) in
+  encq f1 ++ encq f2 ++ encq f3.
